@@ -862,6 +862,10 @@ impl Session {
     /// Write a frame to the connection
     pub async fn write_frame(&self, frame: Frame) -> Result<()> {
         use tokio_util::codec::Encoder;
+        // A closed session accepts no more frames (its transport is shut down or going away)
+        if self.is_closed() {
+            return Err(AnyTlsError::SessionClosed);
+        }
         let frame_cmd = frame.cmd;
         let frame_stream_id = frame.stream_id;
         let mut codec = FrameCodec;
